@@ -551,6 +551,30 @@ def gen_misc(repo):
     expect(src_equal(ic.body[0], "output = jnp.zeros(len(times), dtype=jnp.float64)"), "indexed cumsum: zeros")
     expect(src_equal(ic.body[1], "output = output.at[start_idx:].set(jnp.cumsum(in_arr[start_idx:]))"), "indexed cumsum: from start index")
     expect(src_equal(ic.body[2], "return output"), "indexed cumsum: return")
+    # functions/derived.py: rolling helpers (templates over Model/Rolling.v, emitted only when the source matches)
+    tree = ast.parse(open(os.path.join(repo, "summer2/functions/derived.py")).read())
+    rd = find_func(find_func(tree, "get_rolling_diff"), "rolling_diff")
+    rb = [s_ for s_ in rd.body if not (isinstance(s_, ast.Expr) and isinstance(s_.value, ast.Constant))]
+    expect(src_equal(rb[0], "out_arr = jnp.empty_like(x)"), "rolling_diff: empty_like")
+    expect(src_equal(rb[1], "out_arr = out_arr.at[periods:].set(x[periods:] - x[:-periods])"), "rolling_diff: differences from index periods")
+    expect(src_equal(rb[2], "out_arr = out_arr.at[:periods].set(jnp.nan)"), "rolling_diff: nan head")
+    expect(src_equal(rb[3], "return out_arr"), "rolling_diff: return")
+    ri = find_func(tree, "_rolling_index")
+    expect(src_equal(ri.body[0], "idx = jnp.arange(len(a) - window + 1)[:, None] + jnp.arange(window)[None, :]"), "_rolling_index: index matrix")
+    expect(src_equal(ri.body[1], "return a[idx]"), "_rolling_index: gather")
+    rf = find_func(find_func(tree, "get_rolling_reduction"), "rolling_func")
+    fb = [s_ for s_ in rf.body if not (isinstance(s_, ast.Expr) and isinstance(s_.value, ast.Constant))]
+    expect(src_equal(fb[0], "out_arr = jnp.empty_like(x)"), "rolling_func: empty_like")
+    expect(src_equal(fb[1], "windowed = _rolling_index(x, window)"), "rolling_func: windows")
+    expect(src_equal(fb[2], "agg = func(windowed, axis=1)"), "rolling_func: reduction over each window")
+    expect(src_equal(fb[3], "out_arr = out_arr.at[:window].set(jnp.nan)"), "rolling_func: nan head")
+    expect(src_equal(fb[4], "out_arr = out_arr.at[window - 1:].set(agg)"), "rolling_func: values from index window - 1")
+    expect(src_equal(fb[5], "return out_arr"), "rolling_func: return")
+    out.append("From S2 Require Import Model.Rolling.\n"
+               "Definition gen_rolling_diff (O : NumOps) (periods : nat) (x : list (F O)) : list (option (F O)) :=\n"
+               "  rolling_diff O periods x.\n"
+               "Definition gen_rolling_reduction (O : NumOps) (func : list (F O) -> F O) (window : nat) (x : list (F O))\n"
+               "  : list (option (F O)) := rolling_reduction O func window x.\n")
     return "MiscGen.v", "\n".join(out)
 
 
